@@ -4,7 +4,7 @@
     Compact literals: the harness writes numbers as [N]; snapshots go to a per-case
     table and OnEnd events refer to them by index.  Options are encoded 0 = None,
     k+1 = Some k. *)
-From Verif Require Import Lib.Base Lib.LTS C10.Spec C10.Model.
+From Verif Require Import Lib.Base Lib.LTS C10.Spec C10.Model C10.ProofsLim.
 Open Scope N_scope.
 
 Definition n2 (x : N) : nat := N.to_nat x.
@@ -39,7 +39,7 @@ Definition conv (tbl : list snap) (e : ev) : event :=
 Inductive case :=
 (** deterministic fragment: one goroutine issues [ops] in order (call i = i-th op) on one span
     with [P] processors, with ([tr] = true) or without runtime/trace active *)
-| CSeq (P : N) (tr : bool) (ops : list op) (tbl : list snap) (h : list ev) (rereads : list N)
+| CSeq (P : N) (tr : bool) (lims : limits) (ops : list op) (tbl : list snap) (drops : list dropped) (h : list ev) (rereads : list N)
 (** free-running fragment: recorded history of one span shared by racing goroutines *)
 | CHist (P : N) (tr : bool) (tbl : list snap) (h : list ev) (rereads : list N)
 (** the same under span limits: [drops] gives, per snapshot number, the DroppedAttributes / DroppedEvents /
@@ -83,11 +83,19 @@ Definition judge (P : nat) (tbl : list snap) (h : list ev) (rereads : list N) : 
 
 Definition check_case (c : case) : list N :=
   match c with
-  | CSeq P tr ops tbl h rr =>
-      let m := hist (run_seq (n2 P) ops) in
-      flag (hist_eqb (map (canon_ev ops) m) (map (conv tbl) h)) V_MISMATCH ++
-      flag (judge (n2 P) tbl h rr) V_SPECFAIL ++
-      flag (spec_ok (n2 P) m) V_MODELSPEC
+  | CSeq P tr lims ops tbl drops h rr =>
+      let ms := run_seq (n2 P) lims ops in
+      let m := hist ms in
+      let hh := map (conv_lim tbl drops) h in
+      let unlimited := match lim_attr lims, lim_event lims, lim_link lims with None, None, None => true | _, _, _ => false end in
+      (* same history, and every delivery / re-read shows the model's drop counts *)
+      flag (hist_eqb (map (canon_ev ops) m) (map (conv tbl) h) &&
+            forallb (fun x => match fst x with EvOnEnd _ _ => dropped_eqb (snd x) (Model.drops ms) | _ => true end) hh &&
+            forallb (fun i => dropped_eqb (nth (n2 i) drops no_drop) (Model.drops ms)) rr) V_MISMATCH ++
+      flag ((negb unlimited || judge (n2 P) tbl h rr) &&
+            spec_lim_ok lims (n2 P) hh &&
+            stable_lim_ok hh (map (fun i => (nth (n2 i) tbl dummy_snap, nth (n2 i) drops no_drop)) rr)) V_SPECFAIL ++
+      flag ((negb unlimited || spec_ok (n2 P) m) && spec_lim_ok lims (n2 P) (ProofsLim.lim_hist ms)) V_MODELSPEC
   | CHist P tr tbl h rr =>
       flag (judge (n2 P) tbl h rr) V_SPECFAIL
   | CLim P tr lims tbl drops h rr =>
